@@ -72,6 +72,13 @@ BREAKING = [
  ('payload-attributed-to-local-peer', ['C20'], 'pubsub/directchannel/channel.go', 's.Conn().RemotePeer()', 's.Conn().LocalPeer()'),
  ('wire-clock-read-unguarded', ['C12'], 'baseorbitdb/events_handler.go', '\t\tuntypedHeads = append(untypedHeads, h)\n', '\t\tif c := h.GetClock(); c != nil {\n\t\t\t_ = c.GetTime()\n\t\t}\n\t\tuntypedHeads = append(untypedHeads, h)\n'),
  ('snapshot-entries-read-before-count', ['C13'], 'stores/basestore/utils.go', '\toplog := b.OpLog()\n', '\toplog := b.OpLog()\n\tall := oplog.GetEntries().Slice()\n'),
+ ('kv-index-reads-log-before-lock', ['C06', 'C17'], 'stores/kvstore/index.go', '\ti.muIndex.Lock()\n\tdefer i.muIndex.Unlock()\n\n\tentries := oplog.Values().Slice()', '\tentries := oplog.Values().Slice()\n\n\ti.muIndex.Lock()\n\tdefer i.muIndex.Unlock()'),
+ ('doc-index-reads-log-before-lock', ['C07', 'C17'], 'stores/documentstore/index.go', '\ti.muIndex.Lock()\n\tdefer i.muIndex.Unlock()\n\n\tentries := oplog.Values().Slice()', '\tentries := oplog.Values().Slice()\n\n\ti.muIndex.Lock()\n\tdefer i.muIndex.Unlock()'),
+ ('snapshot-load-raises-max-only', ['C19'], BS, '\t// the whole log is there: the progress catches up with the maximum raised above\n\tb.recalculateReplicationStatus(maxClock)\n', ''),
+ ('status-recalculation-unlocked', ['C19'], BS, 'func (b *BaseStore) recalculateReplicationStatus(maxTotal int) {\n\tb.muStatus.Lock()\n\tdefer b.muStatus.Unlock()\n', 'func (b *BaseStore) recalculateReplicationStatus(maxTotal int) {\n'),
+ ('determine-address-root-unchecked', ['C14'], 'baseorbitdb/orbitdb.go', '\tif !dbAddress.GetRoot().Equals(manifestHash) {', '\tif dbAddress == nil {'),
+ ('load-refused-history-dropped', ['C05', 'C10'], BS, '\t\t\t\tb.joinOneByOne(ctx, oplog, l)\n', '\t\t\t\t_ = l\n'),
+ ('write-counted-after-index', ['C19'], BS, '\tb.recalculateReplicationStatus(e.GetClock().GetTime())\n\n\tif err := b.updateIndex(ctx); err != nil {\n\t\treturn nil, fmt.Errorf("unable to update index: %w", err)\n\t}\n', '\tif err := b.updateIndex(ctx); err != nil {\n\t\treturn nil, fmt.Errorf("unable to update index: %w", err)\n\t}\n\n\tb.recalculateReplicationStatus(e.GetClock().GetTime())\n'),
 ]
 
 # behaviour-preserving refactorings: every listed check must stay silent
